@@ -138,6 +138,21 @@ def run_arena(ctx):
     ctx.rules.append("arena-oracle: 1-4 task_arenas (max_concurrency 1-6, reserved 0..mc), 1-5 external threads doing execute(parallel_for)/enqueue, observers, optional global_control limit 1-4; "
                      "every body samples its slot index and the set of threads inside; predicate = the six clauses of the property")
     oracle_tie(ctx, "arena-oracle", exe, [], cases, arena_oracle, bucket=lambda c: "arena limit=%d" % c[3], timeout=1200)
+    icases = [[ctx.seed * 1000 + 600 + i, P, N, M] for i, (P, N, M) in enumerate([(2, 40, 40), (4, 60, 30), (8, 100, 20), (4, 8, 200), (16, 200, 10), (3, 30, 60)] * ctx.scale(1, 6))]
+    ctx.rules.append("arena-isolate: outer parallel_for whose bodies run an inner parallel_for inside this_task_arena::isolate (2-16 threads): a thread inside an isolated region never starts an "
+                     "outer body nor an inner body of another region; nothing is lost")
+
+    def iso_oracle(c, toks):
+        if not toks or toks[-1] == "HANG" or toks[0].startswith("CRASH"):
+            return ("arena-isolate-hang", "isolate scenario %s: hang/crash" % c)
+        d = {toks[i]: int(toks[i + 1]) for i in range(0, len(toks) - 1, 2)}
+        if d.get("OUTERINISO") or d.get("FOREIGNINNER"):
+            return ("arena-isolation-broken", "task_arena(%d), %d outer x %d inner iterations: a thread waiting inside this_task_arena::isolate started %d outer task(s) and %d inner task(s) of another "
+                    "isolation scope" % (c[1], c[2], c[3], d.get("OUTERINISO", 0), d.get("FOREIGNINNER", 0)))
+        if d.get("LOST"):
+            return ("arena-isolate-lost", "task_arena(%d): %d inner iterations never ran" % (c[1], d["LOST"]))
+        return None
+    oracle_tie(ctx, "arena-isolate", exe, ["isolate"], icases, iso_oracle, bucket=lambda c: "arena-isolate P=%d" % c[1], timeout=600)
     mcases = [[ctx.seed * 1000 + 800 + i, P, iso, ns] for i, (P, iso, ns) in enumerate([(4, 1, 8), (2, 1, 3), (4, 0, 8), (8, 1, 20), (3, 1, 1), (4, 1, 0)] * ctx.scale(1, 5))]
     ctx.rules.append("arena-mandatory: max_allowed_parallelism = 1; a task enqueued into an arena of 2-8 slots (mandatory worker) while spawned tasks sit there and the caller waits plainly or inside "
                      "isolate; 250 ms after all enqueued work finished only the caller may execute a parallel_for in that arena (three measurements, the last two count)")
@@ -157,9 +172,15 @@ def run_arena(ctx):
 
 
 def replay(ctx, rep):
-    if rep.get("tie") in ("arena-oracle", "arena-mandatory"):
+    if rep.get("tie") in ("arena-oracle", "arena-mandatory", "arena-isolate"):
         lib, err = ctx.build_lib("tbb")
         exe, err = ctx.build_driver("drv_arena", libs=[lib], opt="-O2")
+        if rep.get("tie") == "arena-isolate":
+            rc, lines, err = ctx.run_driver(exe, ["isolate"], [rep["case"]], timeout=120)
+            print(lines)
+            if lines and lines[0].split()[1::2] != ["0", "0", "0"]:
+                ctx.add(Finding("violation", "arena-isolation-broken", "replay %s: %s" % (rep["case"], lines[0]), {"tie": "arena-isolate", "case": rep["case"]}))
+            return
         if rep.get("tie") == "arena-mandatory":
             rc, lines, err = ctx.run_driver(exe, ["mandatory"], [rep["case"]], timeout=120)
             print(lines)
